@@ -246,6 +246,10 @@ func (s ExtendedSpatialID) Higher(hDiff, vDiff int64) *ExtendedSpatialID {
 	var x = s.x / hDiv
 	var y = s.y / hDiv
 	var z = s.z / vDiv
+	// 負の高さIDは0方向への切り捨てではなく、床関数で最適化後の高さIDを求める
+	if s.z < 0 && s.z%vDiv != 0 {
+		z--
+	}
 
 	return &ExtendedSpatialID{
 		hZoom: hZoom,
